@@ -257,6 +257,11 @@ structure Env where
   zero : PType → Json
   /-- the handler registered under a name, as a function of its arguments -/
   call : String → List Json → HResult
+  /-- `buildArguments` since fix 4d3f28e: a JSON `null` argument is never decoded — for an optional
+  parameter it means "not given" (zero value), for a required one the call is refused.
+  `false` = before that fix: `null` goes to `parseParam` like any other value.
+  (A rule of the dispatcher; it lives here because every binding function takes `env`.) -/
+  nullNotGiven : Bool := true
 
 /-- One handler invocation: method name and argument vector (without the context). -/
 abbrev Call := String × List Json
@@ -284,6 +289,12 @@ def isNilOrEmpty : Option Json → Bool
   | some (.obj []) => true
   | _ => false
 
+/-- one supplied value against one parameter -/
+def decodeParam (env : Env) (p : Param) (v : Json) : Option Json :=
+  match env.nullNotGiven, v with
+  | true, .null => if p.optional then some (env.zero p.ty) else none
+  | _, v => env.decode p.ty v
+
 /-- Positional binding: the given values are decoded in order against the parameter types, the
 remaining parameters get their zero value. -/
 def bindPositional (env : Env) : List Param → List Json → Except BindErr (List Json)
@@ -292,7 +303,7 @@ def bindPositional (env : Env) : List Param → List Json → Except BindErr (Li
     let rest ← bindPositional env ps []
     pure (env.zero p.ty :: rest)
   | p :: ps, v :: vs =>
-    match env.decode p.ty v with
+    match decodeParam env p v with
     | none => .error .decode
     | some a => do
       let rest ← bindPositional env ps vs
@@ -316,7 +327,7 @@ def bindNamed (env : Env) : List Param → List (String × Json) → Except Bind
   | p :: ps, m =>
     match mapGet m p.name with
     | some v =>
-      match env.decode p.ty v with
+      match decodeParam env p v with
       | none => .error .decode
       | some a => do
         let (rest, m') ← bindNamed env ps (mapDelete m p.name)
